@@ -1204,6 +1204,26 @@ class Summary(object):
             it = self.prep(st.iter, env, pc, fr)
             self.record_calls(it, env, pc, fr)
             ia = self.alts(it, env, pc)
+            if len(ia) == 1 and isinstance(ia[0][1], (ast.ListComp, ast.GeneratorExp)) and len(ia[0][1].generators) == 1 and not st.orelse \
+                    and isinstance(ia[0][1].elt, ast.Name) and isinstance(ia[0][1].generators[0].target, ast.Name) \
+                    and ia[0][1].elt.id == ia[0][1].generators[0].target.id and isinstance(st.target, ast.Name) and not getattr(st, '_comp_done', False):
+                # for x in [y for y in IT if C(y)]: BODY   ==   for x in IT: if C(x): BODY        (a filtering comprehension with identity element)
+                import copy as _copy
+                gen = ia[0][1].generators[0]
+                cv, tv = gen.target.id, st.target.id
+
+                class _Ren(ast.NodeTransformer):
+                    def visit_Name(self_, n):
+                        return ast.copy_location(ast.Name(id=tv, ctx=n.ctx), n) if n.id == cv else n
+                ifs = [_Ren().visit(_copy.deepcopy(c)) for c in gen.ifs]
+                body = list(st.body)
+                if ifs:
+                    test = ifs[0] if len(ifs) == 1 else ast.BoolOp(op=ast.And(), values=ifs)
+                    body = [ast.If(test=test, body=list(st.body), orelse=[], lineno=st.lineno)]
+                lowered = ast.For(target=st.target, iter=gen.iter, body=body, orelse=[], lineno=st.lineno)
+                lowered._comp_done = True
+                ast.fix_missing_locations(lowered)
+                return self.loop(lowered, env, pc, fr)
             if len(ia) == 1 and isinstance(ia[0][1], (ast.Tuple, ast.List)) and 0 < len(ia[0][1].elts) <= 8 and \
                     not any(isinstance(x, ast.Starred) for x in ia[0][1].elts):
                 return self.unroll(st, list(ia[0][1].elts), env, pc, fr)
